@@ -291,6 +291,24 @@ ADDENDA = {
     "C20": " Added: R20.5 no call mutates state a later call reads (PreparedGeometry hands out fresh edges on every path; inventory of interior-mutable fields).",
 }
 
+
+# round 4 (appended to the texts above)
+ADDENDA4 = {
+    "C01": " Round 4: R1.8-R1.11 exhaustive tables of the relate state layer, evaluated from MIR on concrete records: TopologyPosition / Label get-set laws, flip, swap_args (68 position records, ~50k cases); IntersectionMatrix set / set_at_least / set_at_least_if_in_both, the cells an edge / node label contributes, set_label_boundary; bundle labels (compute_label_on / _side / into_labeled over bundles of 0..3 edge ends); star labelling (propagate_side_labels on every consistent star of 1..3 bundles, compute_labeling's fill-in by operand dimension and node position). R1.12 prepared operands (C17's freshness / typestate / cached-field rules). R1.13 HasDimensions tables of Line, Rect, Triangle, LineString, Polygon on grid witnesses.",
+    "C03": " Round 4: R3.7 the integer kernel (SimpleKernel::orient2d or the inherited default) as a decision table on exact integer witnesses incl. near-collinear triples with 2^30-sized coordinates whose products fit i64; conversions to f64 are evaluated as IEEE roundings, so a determinant taken in floating point is reported.",
+    "C04": " Round 4: R4.7 winding_order / least_index tables (shared with C05) because unary_union derives its fill rule from them.",
+    "C05": " Round 4: R5.1 collection sums decided as polynomial identities on collections of 0..3 members (|signed| counts as unsigned only for Polygon members); R5.7 least_index table on slices over {-0.0, +0.0, 1.0}.",
+    "C06": " Round 4: R6.7 HasDimensions tables of the basic types (the centroid dispatches degenerate shapes on them).",
+    "C07": " Round 4: R7.8 every Euclidean Distance impl between Coord, Point and Line evaluated numerically (extracted path table, helpers inlined) against the exact segment distances on a 3x3 grid; R7.9 line_string_contains_point against exact point-on-segment on grid line strings.",
+    "C08": " Round 4: R8.7 both kernel bodies (robust table, integer table), R8.8 least_index (Graham's pivot).",
+    "C09": " Round 4: R9.9 the metric of Douglas-Peucker, Distance<Coord, &Line>, is the distance to the segment (numeric table shared with C07).",
+    "C10": " Round 4: R10.7 check_interior_intersection of the monotone sweep on all pairs of grid segments (splits only at an end point strictly inside the split segment); R10.8 find_and_fix_holes_in_exterior keeps the input polygon's interiors on every rebuilding path.",
+    "C11": " Round 4: R11.7 both kernel bodies (shared with C03).",
+    "C12": " Round 4: R12.4 the point-in-geometry kernels behind closest_point's intersects guard (Triangle / Line / Rect point tests, ring step, polygon composition, LineString point kernels; shared with C02).",
+    "C13": " Round 4: R13.8 bounding-box tables (bounding_rect_merge and BoundingRect of the basic / Multi types on witnesses): the documented origin of scale / skew / rotate_around_center.",
+    "C19": " Round 4: R19.8 bounding-box tables: bounding_rect_merge and BoundingRect of Point, Line, Triangle, Rect, LineString, MultiPoint, Polygon, MultiLineString, MultiPolygon evaluated on grid witnesses (None iff no coordinate, else min/max).",
+}
+
 def main():
     props = [json.loads(l) for l in open(os.path.join(HERE, "properties.jsonl"))]
     checks = []
@@ -306,7 +324,7 @@ def main():
                 "evidence_file": "/verif/evidence/%s.json" % pid,
                 "replay_cmd_template": "./check %s --explain {path}" % pid,
                 "engine": "geofacts+rules",
-                "level_claimed": {"category": c["category"], "text": c["text"] + ADDENDA.get(pid, ""), "design_ref": c["design_ref"]},
+                "level_claimed": {"category": c["category"], "text": c["text"] + ADDENDA.get(pid, "") + ADDENDA4.get(pid, ""), "design_ref": c["design_ref"]},
                 "level_note": c["note"],
                 "technique": c["technique"],
             })
